@@ -278,6 +278,11 @@ func parseVpsSpsPpsAnnexbFromRecord(payload []byte) (vps, sps, pps []byte, err e
 			end = len(payload) - i
 		}
 		nal := payload[i+4 : i+end]
+		if len(nal) == 0 {
+			// 两个start code紧挨着，或者start code位于末尾，跳过这个空的nalu
+			i += end
+			continue
+		}
 		typ := ParseNaluType(nal[0])
 		switch typ {
 		case NaluTypeVps:
